@@ -419,6 +419,33 @@ def document_part(chk, rng, tmp: Path, mirror):
             _, got = pkg.read_zip(data)
             if not c03.compare(chk, {**case, "after_clone": steps, "twin": name}, exp, got):
                 break
+            if sub is twin:
+                twin_names = sorted(got)
+        else:
+            # ---- the world around the clone moves on: the original gains a picture and is saved over the file it was opened from
+            #      (or to its folder / a new path); the clone still lists, holds and saves what it held
+            own = getattr(orig.doc.container, "path", None)
+            try:
+                parts0 = sorted(twin.doc.parts)
+                snap = semantic_view(twin.doc, {})
+                orig.doc.add_file(io.BytesIO(b"\x89PNG\r\n\x1a\n" + rng.randbytes(40)))
+                where = "a new file"
+                if own is not None and Path(own).is_file() and str(own).startswith(str(tmp)):
+                    orig.doc.save()
+                    where = "the file it was opened from"
+                else:
+                    orig.doc.save(tmp / f"moved-on-{rng.randrange(10**9)}.odt")
+                chk.count("after the histories", f"original gains a picture and is saved to {where}")
+                parts1 = sorted(twin.doc.parts)
+                now = semantic_view(twin.doc, {})
+                _, again = pkg.read_zip(pkg.save_zip_bytes(twin.doc))
+            except Exception as e:  # noqa: BLE001
+                chk.fail({**case, "after_clone": steps, "exception": repr(e), "clause": "moved-on"}, f"after the original was saved again, using the clone raised {type(e).__name__}")
+                continue
+            if parts1 != parts0 or now != snap or sorted(again) != twin_names:
+                chk.fail({**case, "after_clone": steps, "clause": "independence", "saved_to": where,
+                          "parts_gained": [n for n in parts1 if n not in parts0][:3], "package_gained": [n for n in sorted(again) if n not in twin_names][:3]},
+                         "after the original gained a picture and was saved again, the clone lists / holds / saves something else than before")
 
 
 def lockstep_part(chk, rng, tmp: Path):
